@@ -4,7 +4,9 @@ import (
 	"bytes"
 	_ "embed"
 	"encoding/hex"
+	"encoding/json"
 	"fmt"
+	"os"
 	"reflect"
 	"sort"
 	"strings"
@@ -108,38 +110,14 @@ func BuildCatalogue() *Catalogue {
 		ByFam: map[string][]string{}, ifaceImpl: map[reflect.Type][]int{}, Skipped: map[string]string{},
 	}
 	Cat = c
-	for _, ln := range strings.Split(corpusText, "\n") {
-		p := strings.SplitN(ln, "\t", 2)
-		if len(p) != 2 {
-			continue
+	if ProbeFile != "" {
+		// samples probed by `simc19 -probe` in another process: nothing of the library
+		// runs here, so that the first simulated run of this process meets it cold
+		if err := c.loadProbe(ProbeFile); err != nil {
+			panic("harness: cannot load probe file: " + err.Error())
 		}
-		b, err := hex.DecodeString(strings.TrimSpace(p[1]))
-		if err != nil {
-			continue
-		}
-		c.Samples = append(c.Samples, Sample{Name: p[0], Data: b})
-	}
-	for i := range c.Samples {
-		if len(c.Samples[i].Data) > 2048 {
-			// maximum-size samples carry 64 KiB opaque IEs; the code paths are the same
-			// for 40 octets, and the simulation budget is better spent on schedules
-			if small := shrinkSample(c.Samples[i].Data); small != nil {
-				c.Samples[i].Data = small
-			} else {
-				c.Samples[i].Data = c.Samples[i].Data[:2048]
-			}
-		}
-		func() {
-			defer func() { recover() }()
-			m := nas.NewMessage()
-			d := append([]byte(nil), c.Samples[i].Data...)
-			if err := m.PlainNasDecode(&d); err == nil {
-				c.Samples[i].OK = true
-			}
-		}()
-		if c.Samples[i].OK {
-			c.OKSamples = append(c.OKSamples, i)
-		}
+	} else {
+		c.probeSamples()
 	}
 	add := func(fam, name string) {
 		c.ByFam[fam] = append(c.ByFam[fam], name)
@@ -227,6 +205,88 @@ func BuildCatalogue() *Catalogue {
 		}
 	}
 	return c
+}
+
+// ProbeFile: if set before InitHarness, the sample table is loaded from it.
+var ProbeFile string
+
+type probeSample struct {
+	Name string `json:"name"`
+	Data string `json:"data"`
+	OK   bool   `json:"ok"`
+}
+
+// probeSamples decodes the embedded corpus with the library under test: which
+// samples decode, and shrunk versions of the maximum-size ones.
+func (c *Catalogue) probeSamples() {
+	for _, ln := range strings.Split(corpusText, "\n") {
+		p := strings.SplitN(ln, "\t", 2)
+		if len(p) != 2 {
+			continue
+		}
+		b, err := hex.DecodeString(strings.TrimSpace(p[1]))
+		if err != nil {
+			continue
+		}
+		c.Samples = append(c.Samples, Sample{Name: p[0], Data: b})
+	}
+	for i := range c.Samples {
+		if len(c.Samples[i].Data) > 2048 {
+			// maximum-size samples carry 64 KiB opaque IEs; the code paths are the same
+			// for 40 octets, and the simulation budget is better spent on schedules
+			if small := shrinkSample(c.Samples[i].Data); small != nil {
+				c.Samples[i].Data = small
+			} else {
+				c.Samples[i].Data = c.Samples[i].Data[:2048]
+			}
+		}
+		func() {
+			defer func() { recover() }()
+			m := nas.NewMessage()
+			d := append([]byte(nil), c.Samples[i].Data...)
+			if err := m.PlainNasDecode(&d); err == nil {
+				c.Samples[i].OK = true
+			}
+		}()
+		if c.Samples[i].OK {
+			c.OKSamples = append(c.OKSamples, i)
+		}
+	}
+}
+
+// WriteProbe stores the probed sample table.
+func (c *Catalogue) WriteProbe(path string) error {
+	var out []probeSample
+	for _, s := range c.Samples {
+		out = append(out, probeSample{s.Name, hex.EncodeToString(s.Data), s.OK})
+	}
+	b, err := json.Marshal(out)
+	if err != nil {
+		return err
+	}
+	return os.WriteFile(path, b, 0o644)
+}
+
+func (c *Catalogue) loadProbe(path string) error {
+	b, err := os.ReadFile(path)
+	if err != nil {
+		return err
+	}
+	var in []probeSample
+	if err := json.Unmarshal(b, &in); err != nil {
+		return err
+	}
+	for i, s := range in {
+		d, err := hex.DecodeString(s.Data)
+		if err != nil {
+			return err
+		}
+		c.Samples = append(c.Samples, Sample{Name: s.Name, Data: d, OK: s.OK})
+		if s.OK {
+			c.OKSamples = append(c.OKSamples, i)
+		}
+	}
+	return nil
 }
 
 var secNames = []string{
@@ -489,7 +549,7 @@ func collectIEs(v reflect.Value) []reflect.Value {
 	var out []reflect.Value
 	var walk func(v reflect.Value, depth int)
 	walk = func(v reflect.Value, depth int) {
-		if depth > 6 {
+		if depth > 12 {
 			return
 		}
 		switch v.Kind() {
